@@ -136,8 +136,43 @@ def loop_adaptors(b, loop):
     return names
 
 
+def early_exits(b, loop):
+    """Normal edges that leave the loop other than the iterator's `None` edge and `?` error exits / diverging blocks:
+    a `break` (or a `return` of a non-error value) ends the loop before every element was visited."""
+    h, body, nbb, st, nt, c = loop
+    S = b.succs()
+    rets = set(b.return_blocks())
+    can_ret = q.can_reach(b, rets) if rets else set()
+    out = []
+    for x in body:
+        for y in S[x]:
+            if y in body:
+                continue
+            if x == c.bb and y == nt:
+                continue
+            if y not in can_ret:            # panics / unreachable: not a way to finish early
+                continue
+            # `?`: the path leaves through FromResidual::from_residual before anything else happens
+            if is_error_exit(b, y) or is_error_exit(b, x):
+                continue
+            cur, hops, err = y, 0, False
+            while hops < 6:
+                if is_error_exit(b, cur):
+                    err = True
+                    break
+                nx = [z for z in S[cur]]
+                if len(nx) != 1:
+                    break
+                cur = nx[0]
+                hops += 1
+            if err:
+                continue
+            out.append((x, y))
+    return out
+
+
 def visits_all(b, loop):
-    return not (set(loop_adaptors(b, loop)) & PARTIAL_ADAPTORS)
+    return not (set(loop_adaptors(b, loop)) & PARTIAL_ADAPTORS) and not early_exits(b, loop)
 
 
 def elem_of_loop(b, loop, op):
